@@ -195,8 +195,11 @@ fn main() {
     let wic = step.get("wic").map(|b| *b == J::Bool(true)).unwrap_or(false);
     let mut h0 = rng::fnv(cmd.as_bytes());
     if let Some(r) = step.get("rsp").and_then(|r| r.as_arr()) {
-        h0 = rng::fnv_combine(h0, rng::fnv(r[0].as_str().unwrap_or("").as_bytes()));
-        h0 = rng::fnv_combine(h0, rng::fnv(r[1].as_str().unwrap_or("").as_bytes()));
+        // a command consumes the response file it finds, not the one it was promised
+        let path = r[0].as_str().unwrap_or("");
+        let on_disk = std::fs::read(path).unwrap_or_default();
+        h0 = rng::fnv_combine(h0, rng::fnv(path.as_bytes()));
+        h0 = rng::fnv_combine(h0, rng::fnv(&on_disk));
     }
     for f in &reads {
         h0 = rng::fnv_combine(h0, rng::fnv(f.as_bytes()));
